@@ -145,7 +145,8 @@ lockstep (const scenario_t *sc, const plan_t *pl, result_t *res, long *fired_out
 {
     machine_t *m0, *mf;
     uint64_t h = FNV_INIT;
-    int j, fired_total = 0;
+    int j, fired_total = 0, tainted = 0;
+    int reissue = (int)sc_get (sc, "reissue", 1);
     char site[96];
 
     sim_alloc_reset ();
@@ -165,6 +166,29 @@ lockstep (const scenario_t *sc, const plan_t *pl, result_t *res, long *fired_out
 	opf.a[0] = opf.a[1] = opf.a[2] = 0;
 	if (j == pl->i) { opf.a[0] = pl->k; opf.a[1] = pl->mode; opf.a[2] = pl->entry; }
 
+	/* "every object remains safe to use afterwards" also for a caller that does NOT
+	 * repeat a failed setter: for set_transform / set_filter, when the scenario says
+	 * so, the faulted side goes first and, if the call failed, the fault-free side
+	 * leaves the call out too.  Pixel differences are not judged from then on (the
+	 * property does not say which value a failed setter leaves), crashes, leaks and
+	 * invalid frees still are. */
+	if (j == pl->i && !reissue && (op0.kind == MOP_SET_TRANSFORM || op0.kind == MOP_SET_FILTER))
+	{
+	    sim_alloc.bad_free = 0; sim_alloc.bad_free_site = NULL;
+	    machine_step (mf, &opf, 2 * j + 1, &sf);
+	    fired_total += sf.n_failed;
+	    if (sf.executed && !sf.ret && sf.n_failed)
+	    {
+		tainted = 1;
+		sim_count ("failed_setter_not_reissued", 1);
+		if (sim_alloc.bad_free)
+		    sim_violation (res, "C15", "C15/invalid-or-double-free", mop_names[op0.kind], "invalid free (site %p) in a failing %s", sim_alloc.bad_free_site, mop_names[op0.kind]);
+		continue;
+	    }
+	    machine_step (m0, &op0, 2 * j, &s0);
+	    if (sf.executed) h = fnv_u64 (h, ((uint64_t)j << 8) ^ (uint64_t)(sf.ret & 1));
+	    continue;
+	}
 	machine_step (m0, &op0, 2 * j, &s0);
 	if (j == pl->i && s0.is_draw && s0.dst_slot >= 0)
 	{
@@ -294,6 +318,8 @@ lockstep (const scenario_t *sc, const plan_t *pl, result_t *res, long *fired_out
 		     * two sides back in step and carry on */
 		    machine_restore (mf, slot, m0->img[slot].lowest);
 		}
+		else if (tainted && machine_compare_slot (m0, mf, slot) >= 0)
+		    machine_restore (mf, slot, m0->img[slot].lowest);
 		else if (machine_compare_slot (m0, mf, slot) >= 0)
 		{
 		    sim_violation (res, "C15", "C15/state-diverged-after-fault", site,
@@ -312,7 +338,7 @@ lockstep (const scenario_t *sc, const plan_t *pl, result_t *res, long *fired_out
     if (!res->violated)
     {
 	int i;
-	for (i = 0; i < M_NIMG && !res->violated; i++)
+	for (i = 0; i < M_NIMG && !res->violated && !tainted; i++)
 	    if (machine_compare_slot (m0, mf, i) >= 0)
 		sim_violation (res, "C15", "C15/state-diverged-after-fault", "end-of-scenario",
 			       "slot %d differs from the fault-free run at the end (fault at op %d k=%d mode=%d)", i, pl->i, pl->k, pl->mode);
@@ -418,6 +444,7 @@ generate (uint64_t seed, int tier, const char *property, scenario_t *sc)
     int n_ops, i, wide_run, fault_pct;
     rng_seed (&r, seed, 2);
     sc_set (sc, "enumerate", tier ? 1 : 0);
+    sc_set (sc, "reissue", rng_chance (&r, 1, 2));
     fault_pct = tier ? 0 : (int)rng_range (&r, 25, 60);
     gen_init (&g, &r, sc, fault_pct, 6);
     n_ops = (int)rng_range (&r, 5, 25);
